@@ -93,7 +93,7 @@ RDM = (' A redial-enabled session is covered at step level as well: spec/RedialM
        '(the loss-handling goroutine parked at each of 13 action boundaries, callers parked at call.stored / write.refused, calls / Close() / server back / rejecting dial hook issued meanwhile) '
        'forced on the real code over loopback TCP and judged at quiescence by spec/PRedialM.tla (every call and Close() ends; the session is alive, ended or, after a later call, revived; closed for good after a local Close()).')
 EXTRA = {
- 'C02': RDM + ' For this property: the 200 sampled families with calls racing a loss, a round or a Close().',
+ 'C02': RDM + ' For this property: the 200 sampled families with calls racing a loss, a round or a Close(), the directed scenarios earlyreply (a hostile remote answers a call that is still being launched and whose write fails; Session.tla with EarlyReplies is model-checked for it) and nestedcall (a handler calls back on its own session and the connection is lost).',
  'C07': RDM + ' For this property: 200 sampled families (all 830 in the thorough tier).',
  'C08': RDM + ' For this property: the families with a local Close() (150 sampled).',
  'C13': RDM + ' For this property: 400 sampled families in the quick tier, all 830 twice in the thorough tier.',
